@@ -966,10 +966,19 @@ Definition handle (m : M) (c : conn) (x : msg) (fresh : uuid) (bserial : option 
   end end.
 
 (* ---------------------------------------------------------------- one step *)
+(* fuel of the work loop (the Rust loop has none): more than the number of work items a step can
+   queue — every live entity incl. event subscriptions, service subscriptions and pending calls,
+   squared, plus a slack of 1024 for work already queued by the handler from entities it deleted
+   (e.g. DestroyObject of an object with many services).  C11_work_loop_terminates proves that SOME
+   fuel always suffices; an explicit bound is not proved (site 0 = fuel exhausted). *)
 Definition fuel_for (s : state) : nat :=
+  let per_svc := map_fold (fun _ sv acc =>
+      (size (s_events sv) + size (s_calls sv) + size (s_all sv) + size (s_subs sv) +
+       map_fold (fun _ set a => (size set + a)%nat) 0%nat (s_events sv) + acc)%nat) 0%nat (svcs s) in
+  let per_conn := map_fold (fun _ cs acc => (size (cs_calls cs) + acc)%nat) 0%nat (conns s) in
   let n := (size (conns s) + size (objs s) + size (svcs s) + size (calls s) + size (chans s)
-           + size (listeners s))%nat in
-  (64 + 8 * (S n) * (S n))%nat.
+           + size (listeners s) + per_svc + per_conn)%nat in
+  S (N.to_nat 1024 + 8 * (S n) * (S n))%nat.
 
 Definition step (s : state) (e : event) (fresh : uuid) (bserial : option N) : outcome (state * list out) :=
   let m0 := {| ms := s; mw := work0; mo := [] |} in
